@@ -1,4 +1,6 @@
 import HeimdallModel.Lemmas.Conc
+import HeimdallModel.Lemmas.ConcLive
+import HeimdallModel.Lemmas.ConcOwn
 import HeimdallModel.Model.RepoProtocol
 import HeimdallModel.Gen.RepoProtocol
 import HeimdallModel.Model.Repo
@@ -139,6 +141,31 @@ theorem c07_no_lost_update (c : Config K T Op Req Ans) (hr : Reachable s c) (i :
   have := hinv.held i hl
   rw [h] at this
   exact this.2.2
+
+/-- **No change is lost, none is applied twice.** The commit log consists of exactly the operations of the writers
+that have published their change, each once, in commit order (`owners` lists the committing threads without
+repetition; a thread is listed iff it got as far as publishing; the k-th log entry is the operation of the k-th
+owner) — together with `c07_index_sequential`: the published index is the sequential result of all of them. -/
+theorem c07_every_change_exactly_once (c : Config K T Op Req Ans) (hr : Reachable s c) :
+    c.owners.Nodup ∧ (∀ j, j ∈ c.owners ↔ committed (c.threads j)) ∧
+      c.owners.map (fun j => opOf (c.threads j)) = c.log.map some :=
+  ⟨(oinv_reachable s c hr).nodup, (oinv_reachable s c hr).mem, (oinv_reachable s c hr).ops⟩
+
+/-- **Deadlock freedom.** In every reachable configuration in which some thread (writer or reader) has not finished,
+some thread can take a step: no interleaving of requests and changes gets stuck. -/
+theorem c07_deadlock_free (c : Config K T Op Req Ans) (hr : Reachable s c) (i : Nat)
+    (hnf : ¬ finished (c.threads i)) : ∃ c', Step s c c' :=
+  progress s c (inv_reachable s c hr) (linv_reachable s c hr) i hnf
+
+/-- **Readers and the publishing writer exclude each other**: while a writer holds `rulesTreeMutex` no lookup is
+inside its read section, so a lookup never observes the pointer swap half-way. -/
+theorem c07_swap_excludes_readers (c : Config K T Op Req Ans) (hr : Reachable s c) (i j : Nat)
+    (hi : rwHolder (c.threads i)) (hj : activeReader (c.threads j)) : False := by
+  have hl := linv_reachable s c hr
+  have h1 := (hl.rww_iff i).mpr hi
+  have h2 := hl.rw_excl (by rw [h1]; simp)
+  have h3 := (hl.rd_mem j).mpr hj
+  rw [h2] at h3; cases h3
 
 /-! ## Instantiation with the repository model of C06 -/
 
